@@ -139,17 +139,126 @@ fn map_files(p: &P2Project, ws: &Workspace, paths: &[PathSet]) -> Result<Mapped,
     Ok(Mapped { idx })
 }
 
-fn collision_signature(p: &P2Project, a: &PathSet, b: &PathSet) -> String {
+/// Clause (i) on a PathSet list: Err((signature, message)) for the first pair
+/// of emitted sources sharing an output or source-map path.  Ok(false) = a
+/// source was collected twice (overlapping `sources`, outside the domain).
+fn check_collisions(md: &Metadata, paths: &[PathSet]) -> Result<bool, (String, String, serde_json::Value)> {
+    let emitted: Vec<&PathSet> = paths.iter().filter(|x| !x.example).collect();
     let fname = |x: &PathSet| x.src.file_name().map(|n| n.to_owned());
-    match &p.root.cfg.target {
-        Target::Bundle(_) if fname(a) == fname(b) && a.prj == b.prj => {
-            "paths/bundle-target-keeps-only-the-file-name".into()
+    for (i, a) in emitted.iter().enumerate() {
+        for b in emitted.iter().skip(i + 1) {
+            if a.src == b.src {
+                return Ok(false);
+            }
+            let what = if a.dst == b.dst {
+                "output"
+            } else if a.map == b.map {
+                "source-map"
+            } else if a.dst == b.map || a.map == b.dst {
+                "output/source-map"
+            } else {
+                continue;
+            };
+            let sig = match &md.build.target {
+                veryl_metadata::Target::Bundle { .. } if fname(a) == fname(b) && a.prj == b.prj => {
+                    "paths/bundle-target-keeps-only-the-file-name"
+                }
+                veryl_metadata::Target::Directory { .. } if md.build.sources.len() > 1 && a.prj == b.prj => {
+                    "paths/directory-target-drops-the-sources-dir"
+                }
+                _ => "paths/collision-unexplained",
+            };
+            return Err((
+                sig.to_string(),
+                format!(
+                    "Metadata::paths assigns the same {what} path to two source files:\n  {} -> {} (map {})\n  {} -> {} (map {})",
+                    s(&a.src),
+                    s(&a.dst),
+                    s(&a.map),
+                    s(&b.src),
+                    s(&b.dst),
+                    s(&b.map)
+                ),
+                json!({"a": s(&a.src), "b": s(&b.src), "dst_a": s(&a.dst), "dst_b": s(&b.dst)}),
+            ));
         }
-        Target::Directory(_) if p.sources.dirs().len() > 1 && a.prj == b.prj => {
-            "paths/directory-target-drops-the-sources-dir".into()
-        }
-        _ => "paths/collision-unexplained".into(),
     }
+    Ok(true)
+}
+
+/// The hand-written reproducers of the listed findings (/verif/known/C25/<name>):
+/// a project directory plus an optional `edges.txt` (`A -> B` lines, source
+/// paths relative to the project: A references B).  Decided by the same
+/// clauses, without a generator model, so the KNOWN-FINDING lines do not depend
+/// on the generator's choice sequence.
+fn fixed_case(name: &str) -> Outcome {
+    let src = PathBuf::from(vcore::run::out_root()).join("known/C25").join(name);
+    let src = if src.is_dir() { src } else { PathBuf::from("/verif/known/C25").join(name) };
+    if !src.is_dir() {
+        return Outcome::skip(format!("reproducer {name} is missing"));
+    }
+    let ws = Workspace::new("c25f", "prj");
+    for (rel, bytes) in vcore::util::read_tree(&src) {
+        ws.write(&rel, &String::from_utf8_lossy(&bytes));
+    }
+    let Ok(root) = ws.root.canonicalize() else {
+        return Outcome::skip("scratch directory vanished");
+    };
+    let Ok(mut md) = Metadata::load(root.join("Veryl.toml")) else {
+        return Outcome::skip("reproducer Veryl.toml not accepted");
+    };
+    let Ok(paths) = md.paths::<PathBuf>(&[], true, true) else {
+        return Outcome::skip("Metadata::paths failed on the reproducer");
+    };
+    match check_collisions(&md, &paths) {
+        Err((sig, msg, detail)) => {
+            return Outcome::fail(sig, format!("{msg}\nreproducer: known/C25/{name}"), json!({"reproducer": name, "detail": detail}));
+        }
+        Ok(false) => return Outcome::skip("overlapping sources"),
+        Ok(true) => {}
+    }
+    let r = ws.veryl(&["build"]);
+    if r.code != Some(0) {
+        return Outcome::skip(format!("reproducer does not build (exit {:?})", r.code));
+    }
+    let fl = md.filelist_path();
+    let text = std::fs::read_to_string(&fl).unwrap_or_default();
+    let lines: Vec<PathBuf> = text
+        .lines()
+        .filter(|l| !l.is_empty())
+        .map(|l| {
+            let l = l.strip_prefix("source_file '").and_then(|x| x.strip_suffix('\'')).unwrap_or(l);
+            if l.starts_with('/') { PathBuf::from(l) } else { root.join(l) }
+        })
+        .collect();
+    for (i, l) in lines.iter().enumerate() {
+        if lines[..i].contains(l) {
+            return Outcome::fail("filelist/duplicate-line", format!("{} is listed twice\n{text}", s(l)), json!({"reproducer": name}));
+        }
+    }
+    let edges = std::fs::read_to_string(src.join("edges.txt")).unwrap_or_default();
+    for e in edges.lines() {
+        let Some((a, b)) = e.split_once("->") else { continue };
+        let (a, b) = (a.trim(), b.trim());
+        let dst = |rel: &str| paths.iter().find(|x| x.src == root.join(rel)).map(|x| x.dst.clone());
+        let (Some(da), Some(db)) = (dst(a), dst(b)) else { continue };
+        let (Some(pa), Some(pb)) = (lines.iter().position(|x| *x == da), lines.iter().position(|x| *x == db)) else {
+            return Outcome::fail("filelist/missing-project-file", format!("{a} or {b} is not listed\n{text}"), json!({"reproducer": name}));
+        };
+        if pb >= pa {
+            let defs = std::fs::read_to_string(root.join(a))
+                .unwrap_or_default()
+                .lines()
+                .filter(|l| l.starts_with("module ") || l.starts_with("package ") || l.starts_with("interface "))
+                .count();
+            return Outcome::fail(
+                if defs >= 2 { ORDER_KNOWN } else { "filelist/order" },
+                format!("{a} references {b}, but {} (line {}) does not precede {} (line {})\n{text}reproducer: known/C25/{name}", s(&db), pb + 1, s(&da), pa + 1),
+                json!({"reproducer": name}),
+            );
+        }
+    }
+    Outcome::pass(hash_str(name), false, vec!["fixed_reproducer_passes(defect_fixed?)".into()], format!("known/C25/{name}: no violation"))
 }
 
 fn one_case(d: &mut Draw, thorough: bool) -> Outcome {
@@ -196,37 +305,10 @@ fn one_case(d: &mut Draw, thorough: bool) -> Outcome {
     };
     let mut classes: BTreeSet<String> = BTreeSet::new();
     let emitted: Vec<&PathSet> = paths.iter().filter(|x| !x.example).collect();
-    for (i, a) in emitted.iter().enumerate() {
-        for b in emitted.iter().skip(i + 1) {
-            if a.src == b.src {
-                return Outcome::skip("a source file is collected twice (overlapping sources)");
-            }
-            let what = if a.dst == b.dst {
-                Some("output")
-            } else if a.map == b.map {
-                Some("source-map")
-            } else if a.dst == b.map || a.map == b.dst {
-                Some("output/source-map")
-            } else {
-                None
-            };
-            if let Some(what) = what {
-                let sig = collision_signature(&p, a, b);
-                return Outcome::fail(
-                    sig,
-                    format!(
-                        "Metadata::paths assigns the same {what} path to two source files:\n  {} -> {} (map {})\n  {} -> {} (map {})\nproject: {summary}",
-                        s(&a.src),
-                        s(&a.dst),
-                        s(&a.map),
-                        s(&b.src),
-                        s(&b.dst),
-                        s(&b.map)
-                    ),
-                    mk_input(json!({"a": s(&a.src), "b": s(&b.src), "dst_a": s(&a.dst), "dst_b": s(&b.dst)})),
-                );
-            }
-        }
+    match check_collisions(&md, &paths) {
+        Err((sig, msg, detail)) => return Outcome::fail(sig, format!("{msg}\nproject: {summary}"), mk_input(detail)),
+        Ok(false) => return Outcome::skip("a source file is collected twice (overlapping sources)"),
+        Ok(true) => {}
     }
     if p.forced_collision.is_some() {
         classes.insert("forced_collision_shape_but_paths_distinct".into());
@@ -589,9 +671,21 @@ pub fn run(ctx: &Ctx) {
     let xdg = vcore::util::Scratch::new("c25-xdg");
     // SAFETY: no other thread exists yet
     unsafe { std::env::set_var("XDG_CACHE_HOME", &xdg.path) };
+    // expand the standard library once, before any worker thread may race on it
+    // (concurrent expansion is C30's subject, not this property's)
+    if let Err(e) = veryl_std::expand() {
+        println!("INCONCLUSIVE property={}: cannot expand the standard library: {e}", ctx.id);
+        std::process::exit(2);
+    }
     let mut n = ctx.scale(260, 10_000);
     if let Some(k) = std::env::var("VERIF_C25_CASES").ok().and_then(|x| x.parse().ok()) {
         n = k; // development aid
+    }
+    if !ctx.replay_mode() {
+        for name in ["bundle-same-file-name", "two-sources-same-relative-path", "multi-definition-file-order"] {
+            let out = fixed_case(name);
+            ctx.record("fixed", out, json!({"reproducer": name}));
+        }
     }
     ctx.run("filelist", CaseCfg::cases(n).choices(2500).timeout_s(900).shrink_iters(40), move |d| {
         one_case(d, thorough)
